@@ -1009,3 +1009,50 @@ def invariant_holds(prog, entry):
                     return False
         return True
     return True
+
+
+OWN_ACCESSORS = {'frame': '_frames', 'point': '_points', 'subframe': '_subframe', 'channel': '_channels', 'group': '_groups', 'parameter': '_parameters'}
+
+
+def const_accessor_rule(prog, res, funcs, rule_name='constant-position'):
+    """X.acc(k) with a literal k through one of the library's checked positional accessors, under a guard on
+    the size of that very container: the guard states the author's belief about the size; when it admits a
+    size <= k the accessor throws std::out_of_range on a state the guard let through (belief vs use)"""
+    n_sites = 0
+    for f in funcs:
+        R = None
+        for c in f.calls():
+            nm = c['callee']['name']
+            if nm not in OWN_ACCESSORS or c['k'] != 'CXXMemberCallExpr' or len(f.call_args(c)) != 1 or not str(c['callee'].get('class', '')).startswith('ezc3d::'):
+                continue
+            a = f.nodes[f.strip(f.call_args(c)[0], 'all')]
+            if a.get('cv') is None or a.get('tc') not in ('u', 's'):
+                continue
+            try:
+                k = int(a['cv'])
+            except (TypeError, ValueError):
+                continue
+            R = R or Renderer(f)
+            size = '%s.%s.size' % (uncast(R.render(f.call_obj(c))), OWN_ACCESSORS[nm])
+            lo = None
+            why = []
+            for l, op, r, _ in facts_at(f, R, c['id']):
+                if l != size or not re.match(r'^\d+$', str(r)):
+                    continue
+                g = int(r)
+                m = {'>': g + 1, '>=': g, '==': g}.get(op)
+                if op == '!=' and g == 0:
+                    m = 1
+                if m is not None:
+                    lo = m if lo is None else max(lo, m)
+                    why.append('%s %s' % (op, r))
+            if lo is None:
+                continue
+            n_sites += 1
+            inst = '%s(%d) in %s' % (nm, k, f.qname.split('::')[-1])
+            if lo > k:
+                res.ok(rule_name, inst, f.loc(c['id']), 'guarded by %s %s' % (size, ' and '.join(why)), function=f.sig, expr='%s(%d)@%d' % (nm, k, c['id']), nontrivial=False)
+            else:
+                res.viol(rule_name, inst, f.loc(c['id']), 'the guard %s %s admits a container of %d element(s), for which %s(%d) throws std::out_of_range: a state the guard let through is refused' %
+                         (size, ' and '.join(why), lo, nm, k), function=f.sig, expr='%s(%d)' % (nm, k))
+    return n_sites
